@@ -15,7 +15,8 @@ open XzVerif.Memusage
 
 def MiB : Nat := 1048576
 
-inductive Mode where | compress | decompress
+/-- `enum operation_mode` of xz (MODE_COMPRESS, MODE_DECOMPRESS, MODE_TEST, MODE_LIST). -/
+inductive Mode where | compress | decompress | test | list
   deriving Repr, DecidableEq
 
 inductive Format where | xz | lzma | raw
@@ -52,10 +53,20 @@ inductive Outcome where
   | ok (threads : Nat) (mt : Bool) (chains : List (Nat × List Filter)) (usage : Nat) (limit : Nat) (soft : Bool) (msgs : List String)
   deriving Repr
 
-/-- `hardware_memlimit_get(mode)`. -/
-def memlimitGet (c : Config) : Nat :=
-  let m := if c.mode = .compress then c.memlimitCompress else c.memlimitDecompress
+/-- `hardware_memlimit_get(mode)`: only MODE_COMPRESS uses the compression limit; decompression, testing and listing
+    are all governed by --memlimit-decompress. 0 = no limit. -/
+def hardwareMemlimitGet (mode : Mode) (memlimitCompress memlimitDecompress : Nat) : Nat :=
+  let m := if mode = .compress then memlimitCompress else memlimitDecompress
   if m ≠ 0 then m else UINT64_MAX
+
+def memlimitGet (c : Config) : Nat := hardwareMemlimitGet c.mode c.memlimitCompress c.memlimitDecompress
+
+/-- `xz --list`: `lzma_file_info_decoder(&strm, &idx, hardware_memlimit_get(MODE_LIST), size)` fails with
+    LZMA_MEMLIMIT_ERROR when the Index of the file needs more: "ok" / "fatal shown=<needed>". -/
+def listOutcome (b : Build) (memlimitCompress memlimitDecompress streams blocks : Nat) : String :=
+  let limit := hardwareMemlimitGet .list memlimitCompress memlimitDecompress
+  let need := (indexMemusage b streams blocks).getD UINT64_MAX
+  if need ≤ limit then s!"ok limit={limit} usage={need}" else s!"fatal too-small shown={need} limit={limit}"
 
 /-- `hardware_memlimit_mtenc_is_default()`. -/
 def mtencIsDefault (c : Config) : Bool := c.memlimitCompress = 0 && c.threadsAuto
@@ -244,11 +255,15 @@ def fmtOutcome : Outcome → String
 
 def runLine (b : Build) (ws : List String) : String :=
   match ws with
+  | ["list", mlc, mld, streams, blocks] =>
+    match [mlc, mld, streams, blocks].mapM String.toNat? with
+    | some [mlc, mld, streams, blocks] => listOutcome b mlc mld streams blocks
+    | _ => "bad-op"
   | mode :: fmt :: t :: isMt :: auto :: mlc :: mld :: mtdef :: adj :: bs :: bll :: slots =>
     match [t, isMt, auto, mlc, mld, mtdef, adj, bs, bll].mapM String.toNat?, slots.mapM parseSlot with
     | some [t, isMt, auto, mlc, mld, mtdef, adj, bs, bll], some cs =>
       let c : Config := {
-        mode := if mode == "c" then .compress else .decompress
+        mode := if mode == "c" then .compress else if mode == "t" then .test else if mode == "l" then .list else .decompress
         format := if fmt == "xz" then .xz else if fmt == "lzma" then .lzma else .raw
         threads := t, isMt := isMt = 1, threadsAuto := auto = 1, memlimitCompress := mlc, memlimitDecompress := mld,
         memlimitMtDefault := mtdef, autoAdjust := adj = 1, blockSize := bs, blockListLargest := bll, chains := cs }
